@@ -26,7 +26,7 @@ from .pm import AnalysisError, norm
 from . import gi, df
 from .gi import f_and, f_or, f_not, Exit
 
-MAX_NODES = 1500
+MAX_NODES = 8000
 
 
 def _size(e):
@@ -34,8 +34,19 @@ def _size(e):
 
 
 class Canon:
-    def __init__(self, const_of=None):
+    """canonical forms of expressions.  int_names: set of canonical texts (or predicate on the text) known to be
+    integers; arithmetic is only re-associated / sorted where every operand is known to be an integer."""
+
+    def __init__(self, const_of=None, int_names=None, inline=None):
         self.const_of = const_of      # callable(expr) -> python value or None, for module-level constants
+        self.inline = inline          # callable(call node) -> FunctionDef of a single-expression helper, or None
+        self._depth = 0
+        if int_names is None:
+            self.int_name = lambda t: False
+        elif callable(int_names):
+            self.int_name = int_names
+        else:
+            self.int_name = set(int_names).__contains__
 
     # ------------------------------------------------------------- expressions
     def expr(self, e):
@@ -48,6 +59,9 @@ class Canon:
         return norm(self.expr(e))
 
     def _alpha(self, e, ren, ctr):
+        """bound variables are named by binder nesting depth (context independent: the same comprehension has
+        the same text wherever it is substituted)"""
+        depth = ctr[0]
         if isinstance(e, ast.Name):
             if e.id in ren:
                 return ast.Name(ren[e.id], e.ctx)
@@ -55,33 +69,141 @@ class Canon:
         if isinstance(e, (ast.ListComp, ast.SetComp, ast.GeneratorExp, ast.DictComp)):
             ren = dict(ren)
             gens = []
+            k = 0
             for g in e.generators:
-                it = self._alpha(g.iter, ren, ctr)
+                it = self._alpha(g.iter, ren, [depth + 1] if gens else ctr)
                 for n in ast.walk(g.target):
                     if isinstance(n, ast.Name):
-                        ren[n.id] = "_b%d" % ctr[0]
-                        ctr[0] += 1
-                tgt = self._alpha(g.target, ren, ctr)
-                ifs = [self._alpha(c, ren, ctr) for c in g.ifs]
+                        ren[n.id] = "_b%d" % depth if k == 0 else "_b%d_%d" % (depth, k)
+                        k += 1
+                tgt = self._alpha(g.target, ren, [depth + 1])
+                ifs = [self._alpha(c, ren, [depth + 1]) for c in g.ifs]
                 gens.append(ast.comprehension(tgt, it, ifs, g.is_async))
             if isinstance(e, ast.DictComp):
-                return ast.DictComp(self._alpha(e.key, ren, ctr), self._alpha(e.value, ren, ctr), gens)
-            return type(e)(self._alpha(e.elt, ren, ctr), gens)
+                return ast.DictComp(self._alpha(e.key, ren, [depth + 1]), self._alpha(e.value, ren, [depth + 1]), gens)
+            return type(e)(self._alpha(e.elt, ren, [depth + 1]), gens)
         if isinstance(e, ast.Lambda):
             ren = dict(ren)
             args = copy.deepcopy(e.args)
-            for a in args.posonlyargs + args.args + args.kwonlyargs:
-                ren[a.arg] = "_b%d" % ctr[0]
+            for k, a in enumerate(args.posonlyargs + args.args + args.kwonlyargs):
+                ren[a.arg] = "_b%d" % depth if k == 0 else "_b%d_%d" % (depth, k)
                 a.arg = ren[a.arg]
                 a.annotation = None
-                ctr[0] += 1
-            return ast.Lambda(args, self._alpha(e.body, ren, ctr))
+            return ast.Lambda(args, self._alpha(e.body, ren, [depth + 1]))
         for fld, val in ast.iter_fields(e):
             if isinstance(val, ast.AST):
                 setattr(e, fld, self._alpha(val, ren, ctr))
             elif isinstance(val, list):
                 setattr(e, fld, [self._alpha(v, ren, ctr) if isinstance(v, ast.AST) else v for v in val])
         return e
+
+    # ------------------------------------------------------------- integer typing
+    INT_FUNCS = {"len", "int", "ord", "abs", "hash", "id"}
+    INT_METHODS = {"bit_length", "from_bytes", "count", "index", "find", "tell"}
+
+    def is_int(self, e):
+        if isinstance(e, ast.Constant):
+            return isinstance(e.value, int) and not isinstance(e.value, bool)
+        if isinstance(e, (ast.Name, ast.Attribute, ast.Subscript)):
+            return self.int_name(norm(e))
+        if isinstance(e, ast.Call):
+            if isinstance(e.func, ast.Name) and e.func.id in self.INT_FUNCS:
+                return True
+            if isinstance(e.func, ast.Name) and e.func.id in ("min", "max", "pow") and e.args and all(self.is_int(a) for a in e.args):
+                return True
+            if isinstance(e.func, ast.Attribute) and e.func.attr in self.INT_METHODS:
+                return True
+            return self.int_name(norm(e))
+        if isinstance(e, ast.UnaryOp):
+            return isinstance(e.op, (ast.USub, ast.Invert, ast.UAdd)) and not isinstance(e.operand, (ast.Constant,)) or (isinstance(e.operand, ast.Constant) and self.is_int(e.operand))
+        if isinstance(e, ast.IfExp):
+            return self.is_int(e.body) and self.is_int(e.orelse)
+        if isinstance(e, ast.BinOp):
+            if isinstance(e.op, (ast.LShift, ast.RShift, ast.FloorDiv, ast.Pow)):
+                return True
+            a, b = self.is_int(e.left), self.is_int(e.right)
+            if a and b:
+                return not isinstance(e.op, ast.Div)
+            if isinstance(e.op, (ast.BitAnd, ast.BitOr, ast.BitXor, ast.Add, ast.Sub)):
+                return (isinstance(e.left, ast.Constant) and a) or (isinstance(e.right, ast.Constant) and b)
+            if isinstance(e.op, ast.Mod):
+                return isinstance(e.right, ast.Constant) and b and not isinstance(e.left, (ast.Constant, ast.JoinedStr))
+        return False
+
+    @staticmethod
+    def _has_seq_const(e):
+        return any(isinstance(n, ast.JoinedStr) or (isinstance(n, ast.Constant) and isinstance(n.value, (str, bytes))) or isinstance(n, (ast.List, ast.Tuple))
+                   for n in ast.walk(e))
+
+    # ------------------------------------------------------------- linear normal form
+    def _lin(self, e, force):
+        """-> (dict text -> [coef, term]), const) or None if e is not integer arithmetic"""
+        if isinstance(e, ast.Constant) and isinstance(e.value, int) and not isinstance(e.value, bool):
+            return {}, e.value
+        if isinstance(e, ast.BinOp) and isinstance(e.op, (ast.Add, ast.Sub)) and (force or self.is_int(e)):
+            l, r = self._lin(e.left, force), self._lin(e.right, force)
+            if l is None or r is None:
+                return None
+            sgn = 1 if isinstance(e.op, ast.Add) else -1
+            terms = {k: list(v) for k, v in l[0].items()}
+            for k, (c, t) in r[0].items():
+                if k in terms:
+                    terms[k][0] += sgn * c
+                else:
+                    terms[k] = [sgn * c, t]
+            return {k: v for k, v in terms.items() if v[0] != 0}, l[1] + sgn * r[1]
+        if isinstance(e, ast.UnaryOp) and isinstance(e.op, ast.USub):
+            l = self._lin(e.operand, force)
+            if l is None:
+                return None
+            return {k: [-c, t] for k, (c, t) in l[0].items()}, -l[1]
+        if isinstance(e, ast.BinOp) and isinstance(e.op, ast.Mult):
+            for a, b in ((e.left, e.right), (e.right, e.left)):
+                if isinstance(a, ast.Constant) and isinstance(a.value, int) and not isinstance(a.value, bool) and (force or self.is_int(b)):
+                    l = self._lin(b, force)
+                    if l is None:
+                        return None
+                    return {k: [a.value * c, t] for k, (c, t) in l[0].items() if a.value * c != 0}, a.value * l[1]
+        if isinstance(e, ast.BinOp) and isinstance(e.op, ast.LShift) and isinstance(e.right, ast.Constant) and isinstance(e.right.value, int) and 0 <= e.right.value <= 4096:
+            l = self._lin(e.left, True)
+            if l is None:
+                return None
+            k2 = 1 << e.right.value
+            return {k: [k2 * c, t] for k, (c, t) in l[0].items()}, k2 * l[1]
+        if force or self.is_int(e):
+            return {norm(e): [1, e]}, 0
+        return None
+
+    def _unlin(self, terms, const):
+        out = None
+        for k in sorted(terms):
+            c, t = terms[k]
+            mag = abs(c)
+            piece = t if mag == 1 else ast.BinOp(ast.Constant(mag), ast.Mult(), t)
+            if out is None:
+                out = piece if c > 0 else (ast.UnaryOp(ast.USub(), piece) if mag == 1 else ast.BinOp(ast.Constant(c), ast.Mult(), t))
+            else:
+                out = ast.BinOp(out, ast.Add() if c > 0 else ast.Sub(), piece)
+        if out is None:
+            return ast.Constant(const)
+        if const:
+            out = ast.BinOp(out, ast.Add() if const > 0 else ast.Sub(), ast.Constant(abs(const)))
+        return out
+
+    def linear(self, e, force=False):
+        if e is None or (force and self._has_seq_const(e)):
+            return e
+        if not (isinstance(e, (ast.BinOp, ast.UnaryOp)) or force):
+            return e
+        l = self._lin(e, force)
+        if l is None:
+            return e
+        return self._unlin(*l)
+
+    def _flat(self, e, op):
+        if isinstance(e, ast.BinOp) and isinstance(e.op, op):
+            return self._flat(e.left, op) + self._flat(e.right, op)
+        return [e]
 
     def _fold(self, e):
         for fld, val in ast.iter_fields(e):
@@ -93,6 +215,26 @@ class Canon:
             v = self.const_of(e)
             if isinstance(v, (int, bytes, str)) and not isinstance(v, bool):
                 return ast.Constant(v)
+        if isinstance(e, ast.Slice):
+            e.lower = self.linear(e.lower, True) if e.lower is not None else None
+            e.upper = self.linear(e.upper, True) if e.upper is not None else None
+            if isinstance(e.lower, ast.Constant) and e.lower.value == 0:
+                e.lower = None
+            return e
+        if isinstance(e, ast.Call) and isinstance(e.func, ast.Name) and e.func.id == "range" and not e.keywords:
+            e.args = [self.linear(a, True) for a in e.args]
+            if len(e.args) == 2 and isinstance(e.args[0], ast.Constant) and e.args[0].value == 0:
+                e.args = e.args[1:]
+            return e
+        if isinstance(e, ast.Call) and self.inline is not None and self._depth < 3:
+            fn = self.inline(e)
+            if fn is not None:
+                r = self._inline_call(e, fn)
+                if r is not None:
+                    return r
+        if isinstance(e, ast.Call) and isinstance(e.func, ast.Name) and e.func.id == "divmod" and len(e.args) == 2 and not e.keywords:
+            return ast.Tuple([self._fold(ast.BinOp(copy.deepcopy(e.args[0]), ast.FloorDiv(), copy.deepcopy(e.args[1]))),
+                              self._fold(ast.BinOp(copy.deepcopy(e.args[0]), ast.Mod(), copy.deepcopy(e.args[1])))], ast.Load())
         if isinstance(e, ast.BinOp):
             a, b = e.left, e.right
             if isinstance(a, ast.Constant) and isinstance(b, ast.Constant) and isinstance(a.value, int) and isinstance(b.value, int) and not isinstance(a.value, bool):
@@ -101,40 +243,118 @@ class Canon:
                     return ast.Constant(v)
             if isinstance(a, ast.Constant) and isinstance(b, ast.Constant) and isinstance(a.value, (bytes, str)) and type(a.value) is type(b.value) and isinstance(e.op, ast.Add):
                 return ast.Constant(a.value + b.value)
-            if isinstance(a, ast.Constant) and isinstance(a.value, (bytes, str)) and isinstance(b, ast.Constant) and isinstance(b.value, int) and isinstance(e.op, ast.Mult) and 0 <= b.value <= 4096:
-                return ast.Constant(a.value * b.value)
+            for s_, n_ in ((a, b), (b, a)):
+                if isinstance(s_, ast.Constant) and isinstance(s_.value, (bytes, str)) and isinstance(n_, ast.Constant) and isinstance(n_.value, int) and not isinstance(n_.value, bool) and isinstance(e.op, ast.Mult) and 0 <= n_.value <= 4096:
+                    return ast.Constant(s_.value * n_.value)
             if isinstance(b, ast.Constant) and isinstance(b.value, int) and not isinstance(b.value, bool) and b.value > 0:
                 k = b.value
                 if isinstance(e.op, ast.FloorDiv) and k & (k - 1) == 0:
-                    return ast.BinOp(a, ast.RShift(), ast.Constant(k.bit_length() - 1))
+                    return self._fold_shift(ast.BinOp(a, ast.RShift(), ast.Constant(k.bit_length() - 1)))
                 if isinstance(e.op, ast.BitAnd) and (k + 1) & k == 0:
                     return ast.BinOp(a, ast.Mod(), ast.Constant(k + 1))
-                if isinstance(e.op, ast.Mult) and k & (k - 1) == 0 and k > 1 and not isinstance(a, ast.Constant):
-                    return ast.BinOp(a, ast.LShift(), ast.Constant(k.bit_length() - 1))
-            if isinstance(a, ast.Constant) and isinstance(a.value, int) and not isinstance(a.value, bool) and isinstance(e.op, ast.Mult) and not isinstance(b, ast.Constant):
-                k = a.value
-                if k > 1 and k & (k - 1) == 0:
-                    return ast.BinOp(b, ast.LShift(), ast.Constant(k.bit_length() - 1))
-                return ast.BinOp(b, ast.Mult(), a) if not isinstance(b, (ast.List, ast.Tuple)) else e
+            if isinstance(a, ast.Constant) and isinstance(a.value, int) and not isinstance(a.value, bool) and a.value > 0 and isinstance(e.op, ast.BitAnd) and (a.value + 1) & a.value == 0:
+                return ast.BinOp(b, ast.Mod(), ast.Constant(a.value + 1))
+            if isinstance(e.op, ast.BitAnd) and self.is_int(e):
+                # x & ~(2^k - 1)  ->  (x >> k) * 2^k
+                for s_, n_ in ((a, b), (b, a)):
+                    if isinstance(n_, ast.Constant) and isinstance(n_.value, int) and n_.value < 0 and (~n_.value + 1) & ~n_.value == 0:
+                        k = (~n_.value).bit_length()
+                        return ast.BinOp(ast.Constant(1 << k), ast.Mult(), ast.BinOp(s_, ast.RShift(), ast.Constant(k)))
+            if isinstance(e.op, ast.RShift):
+                return self._fold_shift(e)
+            if isinstance(e.op, (ast.Add, ast.Sub, ast.LShift)) or (isinstance(e.op, ast.Mult) and (isinstance(a, ast.Constant) or isinstance(b, ast.Constant))):
+                r = self.linear(e)
+                if r is not e:
+                    return r
+            if isinstance(e.op, (ast.BitOr, ast.BitAnd, ast.BitXor, ast.Mult)) and self.is_int(e):
+                parts = self._flat(e, type(e.op))
+                if all(self.is_int(x) for x in parts) or not isinstance(e.op, ast.Mult):
+                    parts.sort(key=norm)
+                    out = parts[0]
+                    for x in parts[1:]:
+                        out = ast.BinOp(out, type(e.op)(), x)
+                    return out
+            if isinstance(a, ast.Constant) and isinstance(a.value, int) and not isinstance(a.value, bool) and isinstance(e.op, ast.Mult) and isinstance(b, (ast.Constant, ast.List, ast.Tuple)):
+                return ast.BinOp(b, ast.Mult(), a)
         if isinstance(e, ast.UnaryOp) and isinstance(e.operand, ast.Constant) and isinstance(e.operand.value, int) and not isinstance(e.operand.value, bool):
             if isinstance(e.op, ast.USub):
                 return ast.Constant(-e.operand.value)
             if isinstance(e.op, ast.Invert):
                 return ast.Constant(~e.operand.value)
+        if isinstance(e, ast.UnaryOp) and isinstance(e.op, ast.USub) and self.is_int(e.operand):
+            return self.linear(e)
         if isinstance(e, ast.UnaryOp) and isinstance(e.op, ast.Not) and isinstance(e.operand, ast.UnaryOp) and isinstance(e.operand.op, ast.Not):
             return ast.Call(ast.Name("bool", ast.Load()), [e.operand.operand], [])
         if isinstance(e, ast.Call) and isinstance(e.func, ast.Name) and e.func.id == "dict" and not e.args and all(k.arg for k in e.keywords):
             return ast.Dict([ast.Constant(k.arg) for k in e.keywords], [k.value for k in e.keywords])
-        if isinstance(e, ast.Call) and isinstance(e.func, ast.Name) and e.func.id in ("list", "tuple") and len(e.args) == 1 and isinstance(e.args[0], ast.GeneratorExp):
-            if e.func.id == "list":
-                return ast.ListComp(e.args[0].elt, e.args[0].generators)
+        if isinstance(e, ast.Call) and isinstance(e.func, ast.Name) and e.func.id == "list" and len(e.args) == 1 and isinstance(e.args[0], ast.GeneratorExp):
+            return ast.ListComp(e.args[0].elt, e.args[0].generators)
         if isinstance(e, ast.Subscript) and isinstance(e.value, ast.Constant) and isinstance(e.value.value, (bytes, str)) and isinstance(e.slice, ast.Constant) and isinstance(e.slice.value, int):
             try:
                 return ast.Constant(e.value.value[e.slice.value])
             except Exception:
                 return e
-        if isinstance(e, ast.Tuple) and isinstance(getattr(e, "ctx", None), ast.Load):
-            return e
+        if isinstance(e, ast.Subscript) and isinstance(e.value, (ast.Tuple, ast.List)) and isinstance(e.slice, ast.Constant) and isinstance(e.slice.value, int) and not any(isinstance(x, ast.Starred) for x in e.value.elts):
+            if -len(e.value.elts) <= e.slice.value < len(e.value.elts):
+                return e.value.elts[e.slice.value]
+        if isinstance(e, ast.Subscript) and isinstance(e.slice, (ast.BinOp,)):
+            e.slice = self.linear(e.slice, True)
+        return e
+
+    def _inline_call(self, call, fn):
+        """helper(a, b) -> body of the helper when it is `return <expr>` over its parameters only"""
+        body = [x for x in fn.body if not (isinstance(x, ast.Expr) and isinstance(x.value, ast.Constant))]
+        if len(body) != 1 or not isinstance(body[0], ast.Return) or body[0].value is None:
+            return None
+        a = fn.args
+        if a.vararg or a.kwarg or a.kwonlyargs or any(isinstance(x, ast.Starred) for x in call.args):
+            return None
+        params = [x.arg for x in a.posonlyargs + a.args]
+        if params and params[0] in ("self", "cls") and isinstance(call.func, ast.Attribute):
+            bind = {params[0]: call.func.value}
+            params = params[1:]
+        else:
+            bind = {}
+        if len(call.args) > len(params):
+            return None
+        for p_, v in zip(params, call.args):
+            bind[p_] = v
+        for k in call.keywords:
+            if k.arg is None or k.arg not in params or k.arg in bind:
+                return None
+            bind[k.arg] = k.value
+        defaults = dict(zip(params[len(params) - len(a.defaults):], a.defaults)) if a.defaults else {}
+        for p_ in params:
+            if p_ not in bind:
+                if p_ in defaults and isinstance(defaults[p_], ast.Constant):
+                    bind[p_] = defaults[p_]
+                else:
+                    return None
+        # arguments used more than once must be cheap to duplicate (no calls with effects): names / constants / pure arithmetic are fine
+        expr = copy.deepcopy(body[0].value)
+        free = {n.id for n in ast.walk(expr) if isinstance(n, ast.Name)} - set(bind)
+        if any(n in ("self", "cls") for n in free):
+            return None
+
+        class R(ast.NodeTransformer):
+            def visit_Name(s, n):
+                if n.id in bind and isinstance(n.ctx, ast.Load):
+                    return copy.deepcopy(bind[n.id])
+                return n
+
+            def visit_Lambda(s, n):
+                return n
+        out = R().visit(expr)
+        self._depth += 1
+        try:
+            return self._fold(self._alpha(out, {}, [0]))
+        finally:
+            self._depth -= 1
+
+    def _fold_shift(self, e):
+        """(x >> a) >> b -> x >> (a+b); (2^k * x) >> j with j <= k -> 2^(k-j) * x is NOT applied (x may be negative is fine, but keep it simple)"""
+        if isinstance(e.left, ast.BinOp) and isinstance(e.left.op, ast.RShift) and isinstance(e.right, ast.Constant) and isinstance(e.left.right, ast.Constant):
+            return ast.BinOp(e.left.left, ast.RShift(), ast.Constant(e.left.right.value + e.right.value))
         return e
 
 
@@ -168,29 +388,49 @@ def _cmp_atoms(canon, left, op, right, leaf):
     return leaf(ast.Compare(left, [op], [right]), norm(ast.Compare(left, [op], [right])))
 
 
-class SymWalker:
-    """Walks a function body.  `leaf(expr, text) -> formula` decides how a canonical atom becomes a formula
-    (default: opaque atom named by its text); value-set atomizers plug in there."""
+class State:
+    __slots__ = ("env", "reach")
 
-    def __init__(self, func_node, canon=None, leaf=None, params=None, keep=()):
+    def __init__(self, env, reach):
+        self.env = env
+        self.reach = reach
+
+    def fork(self, reach):
+        return State(dict(self.env), reach)
+
+
+MAX_STATES = 48
+
+
+class SymWalker:
+    """Walks a function body, path-sensitively (trace partitioning: one State per distinct store; states with
+    equal stores are joined, more than MAX_STATES states are joined by forgetting what differs).
+    `leaf(expr, text) -> formula` decides how a canonical atom becomes a formula (default: opaque atom named by
+    its text); value-set atomizers plug in there."""
+
+    def __init__(self, func_node, canon=None, leaf=None, params=None, keep=(), feasible=None):
         self.canon = canon or Canon()
         self.leaf = leaf or (lambda e, t: ("op", t))
         self.node = func_node
         self.env = {}
         self.exits = []
         self.effects = []       # Effect records in program order
-        self.visits = []        # (stmt, reach) like GuardWalker
+        self.visits = []        # (stmt, reach)
         self.keep = set(keep)   # local names never substituted (rules that want to talk about them)
         self.loop_stack = []
         self.guards = {}        # id(If / While / Assert node) -> formula of its test at that program point
         self.tests = {}         # id(node) -> canonical test expression
+        self.loop_out = {}      # id(loop) -> [State] at the end of one iteration, carried names appear as themselves
+        self.loop_in = {}       # id(loop) -> [State] on entry (before havoc)
+        self.final = []         # states falling off the end
+        self.feasible = feasible or _prop_feasible
 
     # ---------------------------------------------------------------- values
-    def sub(self, e):
+    def sub(self, e, env=None):
         """expression with locals substituted by their symbolic values, canonicalised"""
         if e is None:
             return None
-        env = self.env
+        env = self.env if env is None else env
 
         class S(ast.NodeTransformer):
             def __init__(s, bound):
@@ -256,6 +496,9 @@ class SymWalker:
                     return self.leaf(x, "truthy(%s)" % norm(x))
                 if (isinstance(t.ops[0], ast.Eq) and k == 0) or (isinstance(t.ops[0], ast.Lt) and k == 1) or (isinstance(t.ops[0], ast.LtE) and k == 0):
                     return f_not(self.leaf(x, "truthy(%s)" % norm(x)))
+            if len(t.ops) == 1 and isinstance(t.comparators[0], ast.Constant) and t.comparators[0].value is None and isinstance(t.ops[0], (ast.Eq, ast.NotEq)):
+                f = self.leaf(ast.Compare(t.left, [ast.Is()], [t.comparators[0]]), "%s is None" % norm(t.left))
+                return f if isinstance(t.ops[0], ast.Eq) else f_not(f)
             fs = []
             left = t.left
             for op, right in zip(t.ops, t.comparators):
@@ -267,17 +510,74 @@ class SymWalker:
     # ------------------------------------------------------------------ walk
     def run(self, body=None):
         body = body if body is not None else self.node.body
-        r = self.block(body, True)
+        out = self.block(body, [State({}, True)])
+        self.final = out
+        r = f_or(*[s.reach for s in out]) if out else False
         if r is not False:
             self.exits.append(Exit("fall", None, r))
+        self._compact()
         return self.exits
 
-    def block(self, body, reach):
+    def _compact(self):
+        """join records that differ only in the state they were seen in"""
+        seen = {}
+        out = []
+        for e in self.effects:
+            k = (id(e.node), e.kind, e.text(), id(getattr(e, "raw", None)))
+            if k in seen:
+                seen[k].reach = f_or(seen[k].reach, e.reach)
+            else:
+                seen[k] = e
+                out.append(e)
+        self.effects = out
+        seen = {}
+        out = []
+        for e in self.exits:
+            k = (id(e.node), e.kind, norm(e.value) if e.value is not None else None)
+            if k in seen:
+                seen[k].cond = f_or(seen[k].cond, e.cond)
+            else:
+                seen[k] = e
+                out.append(e)
+        self.exits = out
+        seen = {}
+        out = []
+        for st, r in self.visits:
+            if id(st) in seen:
+                i = seen[id(st)]
+                out[i] = (st, f_or(out[i][1], r))
+            else:
+                seen[id(st)] = len(out)
+                out.append((st, r))
+        self.visits = out
+
+    def _dedupe(self, states):
+        seen = {}
+        out = []
+        for s in states:
+            if s.reach is False or not self.feasible(s.reach):
+                continue
+            k = tuple(sorted((n, norm(v)) for n, v in s.env.items()))
+            if k in seen:
+                seen[k].reach = f_or(seen[k].reach, s.reach)
+            else:
+                seen[k] = s
+                out.append(s)
+        if len(out) > MAX_STATES:
+            out = [self._join(out)]
+        return out
+
+    def _join(self, states):
+        keys = set.intersection(*[set(s.env) for s in states])
+        env = {k: states[0].env[k] for k in keys if all(norm(s.env[k]) == norm(states[0].env[k]) for s in states)}
+        return State(env, f_or(*[s.reach for s in states]))
+
+    def block(self, body, states):
         for st in body:
-            if reach is False:
+            if not states:
                 break
-            reach = self.stmt(st, reach)
-        return reach
+            states = self.stmt(st, states)
+        return states
 
     def _assigned(self, stmts):
         out = set()
@@ -297,6 +597,12 @@ class SymWalker:
             if isinstance(value, (ast.Tuple, ast.List)) and len(value.elts) == len(target.elts) and not any(isinstance(x, ast.Starred) for x in target.elts):
                 for t, v in zip(target.elts, value.elts):
                     self._bind(t, v)
+            elif isinstance(value, ast.ListComp) and len(value.generators) == 1 and not value.generators[0].ifs and isinstance(value.generators[0].iter, (ast.Tuple, ast.List)) \
+                    and len(value.generators[0].iter.elts) == len(target.elts) and isinstance(value.generators[0].target, ast.Name):
+                # a, b = [f(_) for _ in (x, y)]
+                g = value.generators[0]
+                for t, item in zip(target.elts, g.iter.elts):
+                    self._bind(t, self.canon.expr(_replace_name(value.elt, g.target.id, item)))
             else:
                 for i, t in enumerate(target.elts):
                     if isinstance(t, ast.Starred):
@@ -307,112 +613,114 @@ class SymWalker:
     def _effect(self, kind, st, reach, **kw):
         self.effects.append(Effect(kind, st, reach, tuple(self.loop_stack), **kw))
 
-    def stmt(self, st, reach):
+    def _record_guard(self, st, c, ctest):
+        if id(st) in self.guards and repr(self.guards[id(st)]) != repr(c):
+            self.guards[id(st)] = f_or(self.guards[id(st)], c)
+        else:
+            self.guards[id(st)] = c
+        self.tests.setdefault(id(st), ctest)
+
+    def stmt(self, st, states):
         if isinstance(st, ast.If):
-            c = self.atomize(st.test)
-            ctest = self.sub(st.test)
-            self.guards[id(st)] = c
-            self.tests[id(st)] = ctest
-            ra, rb = f_and(reach, c), f_and(reach, f_not(c))
-            env0 = dict(self.env)
-            a = self.block(st.body, ra)
-            env_a = self.env
-            self.env = dict(env0)
-            b = self.block(st.orelse, rb)
-            env_b = self.env
-            if a is False and b is False:
-                self.env = {}
-                return False
-            if a is False:
-                self.env = env_b
-            elif b is False:
-                self.env = env_a
-            else:
-                merged = {}
-                for k in set(env_a) | set(env_b):
-                    va, vb = env_a.get(k), env_b.get(k)
-                    if va is None and vb is None:
-                        continue
-                    va = va if va is not None else ast.Name(k, ast.Load())
-                    vb = vb if vb is not None else ast.Name(k, ast.Load())
-                    if norm(va) == norm(vb):
-                        merged[k] = va
-                    else:
-                        m = ast.IfExp(copy.deepcopy(ctest), va, vb)
-                        if _size(m) <= MAX_NODES:
-                            merged[k] = m
-                self.env = merged
-            if a == ra and b == rb:
-                return reach
-            return f_or(a, b)
-        if isinstance(st, ast.Return):
-            self.exits.append(Exit("return", st, reach, self.sub(st.value) if st.value is not None else None))
-            return False
-        if isinstance(st, ast.Raise):
-            self.exits.append(Exit("raise", st, reach, self.sub(st.exc) if st.exc is not None else None))
-            return False
+            res = []
+            for s in states:
+                self.env = s.env
+                c = self.atomize(st.test)
+                self._record_guard(st, c, self.sub(st.test))
+                ra, rb = f_and(s.reach, c), f_and(s.reach, f_not(c))
+                if ra is not False:
+                    res += self.block(st.body, [s.fork(ra)])
+                if rb is not False:
+                    res += self.block(st.orelse, [s.fork(rb)])
+            return self._dedupe(res)
+        if isinstance(st, (ast.Return, ast.Raise)):
+            for s in states:
+                self.env = s.env
+                v = st.value if isinstance(st, ast.Return) else st.exc
+                self.exits.append(Exit("return" if isinstance(st, ast.Return) else "raise", st, s.reach, self.sub(v) if v is not None else None))
+            return []
         if isinstance(st, ast.Assert):
-            c = self.atomize(st.test)
-            self.guards[id(st)] = c
-            self.exits.append(Exit("raise", st, f_and(reach, f_not(c)), ast.Call(ast.Name("AssertionError", ast.Load()), [], [])))
-            return f_and(reach, c)
+            res = []
+            for s in states:
+                self.env = s.env
+                c = self.atomize(st.test)
+                self._record_guard(st, c, self.sub(st.test))
+                self.exits.append(Exit("raise", st, f_and(s.reach, f_not(c)), ast.Call(ast.Name("AssertionError", ast.Load()), [], [])))
+                s.reach = f_and(s.reach, c)
+                res.append(s)
+            return self._dedupe(res)
         if isinstance(st, (ast.For, ast.AsyncFor, ast.While)):
-            assigned = self._assigned(st.body) | (self._assigned([st.target]) if not isinstance(st, ast.While) else set())
-            it = self.sub(st.iter) if not isinstance(st, ast.While) else None
-            for k in assigned:
-                self.env.pop(k, None)
-            label = ("for %s in %s" % (norm(st.target), norm(it))) if it is not None else "while"
-            self.loop_stack.append(LoopCtx(st, it, norm(st.target) if it is not None else None, reach))
-            cond = self.atomize(st.test) if isinstance(st, ast.While) else True
-            env0 = dict(self.env)
-            self.block(st.body, f_and(reach, cond) if cond is not True else reach)
-            self.loop_stack.pop()
-            self.env = {k: v for k, v in env0.items() if k not in assigned}
-            out = reach
+            is_for = not isinstance(st, ast.While)
+            assigned = self._assigned(st.body) | (self._assigned([st.target]) if is_for else set())
+            self.loop_in[id(st)] = [State(dict(s.env), s.reach) for s in states]
+            outs = []
+            after = []
+            for s in states:
+                self.env = s.env
+                it = self.sub(st.iter) if is_for else None
+                env0 = {k: v for k, v in s.env.items() if k not in assigned}
+                self.loop_stack.append(LoopCtx(st, it, norm(st.target) if is_for else None, s.reach))
+                body_state = State(dict(env0), s.reach)
+                if not is_for:
+                    self.env = body_state.env
+                    cond = self.atomize(st.test)
+                    self._record_guard(st, cond, self.sub(st.test))
+                    body_state.reach = f_and(s.reach, cond)
+                outs += self.block(st.body, [body_state]) if body_state.reach is not False else []
+                self.loop_stack.pop()
+                after.append(State(env0, s.reach))
+            self.loop_out.setdefault(id(st), [])
+            self.loop_out[id(st)] += outs
+            after = self._dedupe(after)
             if st.orelse:
-                out = self.block(st.orelse, out)
-            return out
+                after = self.block(st.orelse, after)
+            return after
         if isinstance(st, (ast.Break, ast.Continue)):
-            self._effect("break" if isinstance(st, ast.Break) else "continue", st, reach)
-            return False
+            for s in states:
+                self._effect("break" if isinstance(st, ast.Break) else "continue", st, s.reach)
+            return []
         if isinstance(st, ast.Try):
             assigned = self._assigned(st.body)
-            env0 = dict(self.env)
-            body = self.block(st.body, reach)
-            env_body = self.env
-            outs = [body]
-            envs = [env_body] if body is not False else []
-            for i, h in enumerate(st.handlers):
-                self.env = {k: v for k, v in env0.items() if k not in assigned}
+            starts = [State(dict(s.env), s.reach) for s in states]
+            body_out = self.block(st.body, [s.fork(s.reach) for s in states])
+            if st.orelse and body_out:
+                body_out = self.block(st.orelse, body_out)
+            res = list(body_out)
+            for h in st.handlers:
                 hc = ("op", "exc@%s" % _handler_label(h))
-                o = self.block(h.body, f_and(reach, hc))
-                outs.append(o)
-                if o is not False:
-                    envs.append(self.env)
-            r = f_or(*outs)
-            if envs:
-                keys = set.intersection(*[set(e) for e in envs]) if envs else set()
-                self.env = {k: envs[0][k] for k in keys if all(norm(e[k]) == norm(envs[0][k]) for e in envs)}
-            else:
-                self.env = {}
-            if st.orelse and r is not False:
-                r = self.block(st.orelse, r)
+                hs = [State({k: v for k, v in s.env.items() if k not in assigned}, f_and(s.reach, hc)) for s in starts]
+                if h.name:
+                    for x in hs:
+                        x.env.pop(h.name, None)
+                res += self.block(h.body, hs)
+            res = self._dedupe(res)
             if st.finalbody:
-                r = self.block(st.finalbody, r if r is not False else reach)
-            return r
+                res = self.block(st.finalbody, res if res else [State({k: v for k, v in s.env.items() if k not in assigned}, s.reach) for s in starts])
+            return res
         if isinstance(st, ast.With):
-            for it in st.items:
-                if it.optional_vars is not None:
-                    self._bind(it.optional_vars, None)
-            return self.block(st.body, reach)
+            for s in states:
+                self.env = s.env
+                for it in st.items:
+                    self._calls(it.context_expr, st, s.reach)
+                    if it.optional_vars is not None:
+                        self._bind(it.optional_vars, None)
+            return self.block(st.body, states)
         if isinstance(st, (ast.FunctionDef, ast.AsyncFunctionDef, ast.ClassDef)):
-            self.env.pop(st.name, None)
-            return reach
-        self.visits.append((st, reach))
+            for s in states:
+                s.env.pop(st.name, None)
+            return states
+        for s in states:
+            self.env = s.env
+            self.visits.append((st, s.reach))
+            self._simple(st, s.reach)
+        return self._dedupe(states) if len(states) > 1 else states
+
+    def _simple(self, st, reach):
         if isinstance(st, (ast.Assign, ast.AnnAssign)):
             if getattr(st, "value", None) is None:
-                return reach
+                return
             v = self.sub(st.value)
+            self._calls(st.value, st, reach)
             tg = st.targets if isinstance(st, ast.Assign) else [st.target]
             for t in tg:
                 if isinstance(t, (ast.Name, ast.Tuple, ast.List)):
@@ -423,10 +731,10 @@ class SymWalker:
                     self._effect("setitem", st, reach, target=self.sub(t.value), key=self.sub(t.slice), value=v)
                     if isinstance(t.value, ast.Name):
                         self.env.pop(t.value.id, None)
-            self._calls(st.value, st, reach)
-            return reach
+            return
         if isinstance(st, ast.AugAssign):
             v = self.sub(st.value)
+            self._calls(st.value, st, reach)
             if isinstance(st.target, ast.Name):
                 cur = self.env.get(st.target.id, ast.Name(st.target.id, ast.Load()))
                 self._effect("aug", st, reach, target=ast.Name(st.target.id, ast.Load()), op=st.op, value=v, before=copy.deepcopy(cur))
@@ -435,8 +743,7 @@ class SymWalker:
                 self._effect("augattr", st, reach, target=self.sub(st.target.value), attr=st.target.attr, op=st.op, value=v)
             elif isinstance(st.target, ast.Subscript):
                 self._effect("augitem", st, reach, target=self.sub(st.target.value), key=self.sub(st.target.slice), op=st.op, value=v)
-            self._calls(st.value, st, reach)
-            return reach
+            return
         if isinstance(st, ast.Delete):
             for t in st.targets:
                 if isinstance(t, ast.Subscript):
@@ -445,16 +752,16 @@ class SymWalker:
                     self._effect("delattr", st, reach, target=self.sub(t.value), attr=t.attr)
                 elif isinstance(t, ast.Name):
                     self.env.pop(t.id, None)
-            return reach
+            return
         if isinstance(st, ast.Expr):
             self._calls(st.value, st, reach, top=True)
-            return reach
-        return reach
 
     def _calls(self, e, st, reach, top=False):
         """record calls (outermost first) as effects; mutator calls on locals havoc the local"""
         if isinstance(e, (ast.Yield, ast.YieldFrom)) and top:
             self._effect("yield", st, reach, value=self.sub(e.value) if e.value is not None else None)
+            if e.value is not None:
+                self._calls(e.value, st, reach)
             return
         for n in ast.walk(e):
             if isinstance(n, ast.Call):
@@ -463,6 +770,36 @@ class SymWalker:
                 f = n.func
                 if isinstance(f, ast.Attribute) and isinstance(f.value, ast.Name) and f.attr in MUTATORS and f.value.id in self.env:
                     self.env.pop(f.value.id, None)
+
+
+def _replace_name(e, name, by):
+    class R(ast.NodeTransformer):
+        def visit_Name(s, n):
+            if n.id == name and isinstance(n.ctx, ast.Load):
+                return copy.deepcopy(by)
+            return n
+    return R().visit(copy.deepcopy(e))
+
+
+def _prop_feasible(f):
+    """propositional feasibility of a reach formula (truth table over at most 12 atoms; value-set atoms are
+    treated as integer sets)"""
+    if f is True:
+        return True
+    if f is False:
+        return False
+    try:
+        ops = gi.f_opaques(f)
+        if len(ops) > 12:
+            return True
+        import itertools
+        U, E = gi.IntSet.all(), gi.IntSet.empty()
+        for bits in itertools.product((False, True), repeat=len(ops)):
+            if not gi.f_eval(f, dict(zip(ops, bits)), U, E).is_empty():
+                return True
+        return False
+    except Exception:
+        return True
 
 
 MUTATORS = {"append", "extend", "insert", "pop", "remove", "sort", "reverse", "clear", "update", "setdefault", "popitem", "add", "discard", "write"}
@@ -551,6 +888,21 @@ def make_const_of(ctx, fi):
         cache[t] = v
         return v
     return const_of
+
+
+def make_inliner(ctx, fi):
+    """resolver for Canon.inline: plain-name calls to functions of fi's module (or imported from a repo module)"""
+    locals_ = set(fi.params()) | set(df.assignments(fi.node))
+
+    def resolve(call):
+        f = call.func
+        if isinstance(f, ast.Name) and f.id not in locals_:
+            r = ctx.p.resolve_global(fi.module, f.id)
+            node = getattr(r, "node", None)
+            if isinstance(node, ast.FunctionDef) and node is not fi.node:
+                return node
+        return None
+    return resolve
 
 
 def mutated_locals(func_node):
@@ -674,3 +1026,300 @@ def int_walk(ctx, fi, subject_texts, sym_texts=(), extra_const=None, keep=(), tr
             return extra_const(e)
         return None
     return walk(ctx, fi, value_leaf(is_subject, const, truthy), keep=keep)
+
+
+# ====================================================================== canonical summaries / reference comparison
+def _first_store_pos(func_node):
+    pos = {}
+    for n in ast.walk(func_node):
+        if isinstance(n, ast.Name) and isinstance(n.ctx, ast.Store):
+            p = (n.lineno, n.col_offset)
+            if n.id not in pos or p < pos[n.id]:
+                pos[n.id] = p
+    return pos
+
+
+def _loop_temporaries(loop, func_node):
+    """names assigned unconditionally at the top of every iteration before any read, and not read after the loop"""
+    out = set()
+    assigned = set()
+    for x in loop.body:
+        for n in ast.walk(x):
+            if isinstance(n, ast.Name) and isinstance(n.ctx, ast.Store):
+                assigned.add(n.id)
+    end = (loop.end_lineno, loop.end_col_offset)
+    for name in assigned:
+        first = None
+        for st in loop.body:
+            occ = sorted(((n.lineno, n.col_offset), isinstance(n.ctx, ast.Store)) for n in ast.walk(st) if isinstance(n, ast.Name) and n.id == name)
+            if occ:
+                # in an assignment the value is evaluated before the target is bound
+                if isinstance(st, (ast.Assign, ast.AnnAssign)) and not any(not o[1] for o in occ):
+                    first = "store"
+                elif isinstance(st, (ast.Assign, ast.AnnAssign)) and getattr(st, "value", None) is not None and not any(isinstance(n, ast.Name) and n.id == name for n in ast.walk(st.value)):
+                    first = "store"
+                else:
+                    first = "read"
+                break
+        later = any(isinstance(n, ast.Name) and n.id == name and isinstance(n.ctx, ast.Load) and (n.lineno, n.col_offset) > end for n in ast.walk(func_node))
+        if first == "store" and not later:
+            out.add(name)
+    return out
+
+
+class Item:
+    def __init__(self, kind, head, cond):
+        self.kind = kind
+        self.head = head
+        self.cond = cond        # formula over renamed atoms
+
+    def __repr__(self):
+        from .ct import fmt_formula
+        return "%s | %s | when %s" % (self.kind, self.head, fmt_formula(self.cond) if self.cond not in (True, False) else self.cond)
+
+
+class Summary:
+    """canonical, name-independent description of what a function computes: loop transformers, exits, effects"""
+
+    def __init__(self, items, walker):
+        self.items = items
+        self.w = walker
+
+    def grouped(self):
+        g = {}
+        order = []
+        for it in self.items:
+            k = (it.kind, it.head)
+            if k in g:
+                g[k] = f_or(g[k], it.cond)
+            else:
+                g[k] = it.cond
+                order.append(k)
+        return g, order
+
+    def texts(self):
+        return [repr(i) for i in self.items]
+
+
+def _rename_text(t, ren):
+    import re
+    if not ren:
+        return t
+    return re.sub(r"(?<![A-Za-z_0-9.'\"])(%s)(?![A-Za-z_0-9'\"])" % "|".join(sorted(map(re.escape, ren), key=len, reverse=True)), lambda m: ren[m.group(1)], t)
+
+
+def _rename_formula(f, ren):
+    if f in (True, False) or f[0] == "set":
+        return f
+    if f[0] == "op":
+        return ("op", _rename_text(f[1], ren))
+    if f[0] == "not":
+        return ("not", _rename_formula(f[1], ren))
+    return (f[0], tuple(_rename_formula(g, ren) for g in f[1]))
+
+
+def _formula_names(f):
+    import re
+    return set(re.findall(r"[A-Za-z_][A-Za-z_0-9]*", repr(f)))
+
+
+def summarize(func_node, canon, leaf=None, keep=()):
+    params = {a.arg for a in func_node.args.args + func_node.args.posonlyargs + func_node.args.kwonlyargs}
+    keep = set(keep) | (mutated_locals(func_node) - params)
+    w = SymWalker(func_node, canon, leaf, keep=keep)
+    w.run()
+    raw = []     # (kind, [parts], cond formula)
+    loops = sorted([n for n in ast.walk(func_node) if isinstance(n, (ast.For, ast.While)) and id(n) in w.loop_out], key=lambda n: (n.lineno, n.col_offset))
+    loop_no = {id(n): i for i, n in enumerate(loops)}
+    locals_ = set(_first_store_pos(func_node)) - params
+
+    def in_loop(e):
+        return [" in loop%d" % loop_no[id(e.loops[-1].node)]] if e.loops and id(e.loops[-1].node) in loop_no else []
+    for n in loops:
+        temps = _loop_temporaries(n, func_node)
+        tgt = {x.id for x in ast.walk(n.target) if isinstance(x, ast.Name)} if isinstance(n, ast.For) else set()
+        hdr = "loop%d" % loop_no[id(n)]
+        if isinstance(n, ast.For):
+            for s in w.loop_in.get(id(n), []):
+                w.env = s.env
+                raw.append(("loop-iter", [hdr, " for ", n.target, " in ", w.sub(n.iter)], s.reach))
+        else:
+            raw.append(("loop-iter", [hdr, " while ", w.tests.get(id(n)) or n.test], True))
+        assigned = set()
+        for x in n.body:
+            for y in ast.walk(x):
+                if isinstance(y, ast.Name) and isinstance(y.ctx, ast.Store):
+                    assigned.add(y.id)
+        for s in w.loop_out.get(id(n), []):
+            for name in sorted(assigned - temps - tgt):
+                v = s.env.get(name)
+                if v is None or (isinstance(v, ast.Name) and v.id == name):
+                    continue
+                raw.append(("loop-carry", [hdr, " ", ast.Name(name, ast.Load()), " := ", v], s.reach))
+        for s in w.loop_in.get(id(n), []):
+            for name in sorted(assigned - temps - tgt):
+                v = s.env.get(name)
+                if v is not None:
+                    raw.append(("loop-init", [hdr, " ", ast.Name(name, ast.Load()), " starts as ", v], s.reach))
+    for e in w.exits:
+        if e.kind == "fall":
+            raw.append(("exit", ["fall"], e.cond))
+        else:
+            raw.append(("exit", [e.kind, " ", e.value if e.value is not None else "None"] + (in_loop_exit(e, func_node, loop_no)), e.cond))
+    for e in w.effects:
+        if e.kind in ("break", "continue"):
+            raw.append(("effect", [e.kind] + in_loop(e), e.reach))
+        elif e.kind == "call":
+            if e.top or (isinstance(e.raw.func, ast.Attribute) and e.raw.func.attr in MUTATORS and isinstance(e.raw.func.value, ast.Name)):
+                raw.append(("effect", ["call ", e.call] + in_loop(e), e.reach))
+        elif e.kind == "aug":
+            continue        # augmented assignment of a local: the value is in the store, not an effect
+        else:
+            raw.append(("effect", [e.text()] + in_loop(e), e.reach))
+    # rename surviving locals positionally
+    pos = _first_store_pos(func_node)
+    surviving = set()
+    for k, parts, cond in raw:
+        for p_ in parts:
+            if isinstance(p_, ast.AST):
+                for x in ast.walk(p_):
+                    if isinstance(x, ast.Name) and x.id in locals_:
+                        surviving.add(x.id)
+            else:
+                surviving |= (_formula_names(p_) & locals_) if not isinstance(p_, str) else set()
+        surviving |= _formula_names(cond) & locals_
+    for k, parts, cond in raw:
+        for p_ in parts:
+            if isinstance(p_, str):
+                import re
+                surviving |= set(re.findall(r"[A-Za-z_][A-Za-z_0-9]*", p_)) & locals_ if k == "effect" else set()
+    order = sorted(surviving, key=lambda nm: pos[nm])
+    ren = {nm: "_v%d" % i for i, nm in enumerate(order)}
+    items = []
+    for k, parts, cond in raw:
+        txt = ""
+        for p_ in parts:
+            if isinstance(p_, ast.AST):
+                txt += norm(_rename(p_, ren))
+            else:
+                txt += _rename_text(p_, ren) if k == "effect" else p_
+        items.append(Item(k, txt, _rename_formula(cond, ren)))
+    return Summary(items, w)
+
+
+def in_loop_exit(e, func_node, loop_no):
+    if e.node is None:
+        return []
+    best = None
+    for n in ast.walk(func_node):
+        if isinstance(n, (ast.For, ast.While)) and id(n) in loop_no and any(x is e.node for x in ast.walk(n)):
+            best = n       # innermost wins because ast.walk is breadth-first from the outside
+    return [" in loop%d" % loop_no[id(best)]] if best is not None else []
+
+
+def _rename(e, ren):
+    class R(ast.NodeTransformer):
+        def visit_Name(s, n):
+            if n.id in ren:
+                return ast.Name(ren[n.id], n.ctx)
+            return n
+    return R().visit(copy.deepcopy(e))
+
+
+def _tokens(t):
+    import re
+    return re.findall(r"[A-Za-z_][A-Za-z_0-9]*|\d+|[^\sA-Za-z_0-9]", t)
+
+
+def _equiv(f1, f2):
+    if repr(_sort_formula(f1)) == repr(_sort_formula(f2)):
+        return True
+    try:
+        ops = set(gi.f_opaques(f1) if f1 not in (True, False) else []) | set(gi.f_opaques(f2) if f2 not in (True, False) else [])
+        if len(ops) > 12:
+            return False
+        return gi.f_equiv(f1, f2, gi.IntSet.all(), gi.IntSet.empty())
+    except Exception:
+        return False
+
+
+def _sort_formula(f):
+    if f in (True, False) or f[0] in ("op", "set"):
+        return f
+    if f[0] == "not":
+        return ("not", _sort_formula(f[1]))
+    parts = sorted((_sort_formula(g) for g in f[1]), key=repr)
+    return (f[0], tuple(parts))
+
+
+def compare_summaries(code, ref, near=0.7):
+    """-> (status, details): 'same' | 'differs' (every component of the reference has a counterpart, at least one
+    computes something else or happens under another condition) | 'unrecognised' (some component of the
+    reference has no counterpart: the function is organised differently, no verdict)"""
+    import difflib
+    from .ct import fmt_formula
+    ff = lambda f: fmt_formula(f) if f not in (True, False) else str(f)
+    ga, oa = code.grouped()
+    gb, ob = ref.grouped()
+    details = []
+    unmatched_code = [k for k in oa if k not in gb]
+    far = False
+    for k in ob:
+        if k in ga:
+            if not _equiv(ga[k], gb[k]):
+                details.append(("condition", k[0], "%s when %s" % (k[1], ff(gb[k])), "%s when %s" % (k[1], ff(ga[k])), 1.0))
+            continue
+        best, bk = 0.0, None
+        tk = _tokens(k[1])
+        for k2 in unmatched_code:
+            if k2[0] != k[0]:
+                continue
+            r = difflib.SequenceMatcher(None, tk, _tokens(k2[1]), autojunk=False).ratio()
+            if r > best:
+                best, bk = r, k2
+        if bk is None or best < near:
+            far = True
+            details.append(("missing", k[0], k[1], None, best))
+        else:
+            unmatched_code.remove(bk)
+            details.append(("differs", k[0], k[1], bk[1], best))
+    if not details:
+        return "same", []
+    return ("unrecognised" if far else "differs"), details
+
+
+def against_reference(ctx, fi, ref_source, ref_names, key, int_names=None, leaf=None, keep=(), what=None, sample=True, inline=True):
+    """obligation helper: fi must compute what the reference transcription computes (canonical forms equal).
+    A near miss (same skeleton, one component different) is a violation; a different organisation is undecided."""
+    tree = ast.parse(ref_source) if isinstance(ref_source, str) else ref_source
+    if isinstance(ref_names, str):
+        ref_names = [ref_names]
+    canon_code = Canon(make_const_of(ctx, fi), int_names, make_inliner(ctx, fi) if inline else None)
+    ref_funcs = {n.name: n for n in tree.body if isinstance(n, ast.FunctionDef)}
+    canon_ref = Canon(None, int_names, (lambda c: ref_funcs.get(c.func.id) if isinstance(c.func, ast.Name) and c.func.id != "_" else None) if inline else None)
+    s_code = summarize(fi.node, canon_code, leaf, keep)
+    best = None
+    for ref_name in ref_names:
+        ref_node = None
+        for n in ast.walk(tree):
+            if isinstance(n, (ast.FunctionDef,)) and n.name == ref_name:
+                ref_node = n
+        if ref_node is None:
+            raise AnalysisError("reference %s missing" % ref_name)
+        s_ref = summarize(ref_node, canon_ref, leaf, keep)
+        status, details = compare_summaries(s_code, s_ref)
+        rank = {"same": 0, "differs": 1, "unrecognised": 2}[status]
+        if best is None or (rank, len(details)) < best[0]:
+            best = ((rank, len(details)), status, details, s_ref, ref_name)
+    _, status, details, s_ref, ref_name = best
+    where = "%s:%d" % (fi.module.relpath, fi.node.lineno)
+    if status == "same":
+        ctx.ok(what or key, sample={"function": fi.qualname, "reference": ref_name, "components": len(s_ref.items), "example": repr(s_ref.items[0])[:160] if s_ref.items else ""} if sample else None)
+        return True
+    if status == "differs":
+        for d in details[:4]:
+            ctx.bad("%s:%s" % (key, d[1]), where, "%s computes `%s` where the reference (%s) computes `%s`" % (fi.qualname, (d[3] or "")[:300], ref_name, (d[2] or "")[:300]))
+        return False
+    ctx.undecided(key, where, "%s is organised differently from the reference transcription (%d components differ, e.g. %s); this rule gives no verdict on it"
+                  % (fi.qualname, len(details), "; ".join("%s %s" % (d[0], (d[2] or d[3] or "")[:80]) for d in details[:2])))
+    return None
